@@ -187,11 +187,13 @@ def clause(registry, name, strategy, quick=200, thorough=2000, rule="", oracle="
 
 
 def enum_clause(registry, name, enum, rule="", oracle="", exhaustive_note="", require=None,
-                min_nontrivial=0.0, shards=16, quick_shards=4):
+                min_nontrivial=0.0, shards=16, quick_shards=4, thorough_only=False):
     def deco(fn):
-        registry.append(Clause(name, fn, enum=enum, rule=rule, oracle=oracle, require=require,
-                               min_nontrivial=min_nontrivial, exhaustive_note=exhaustive_note,
-                               shards=shards, quick_shards=quick_shards))
+        cl = Clause(name, fn, enum=enum, rule=rule, oracle=oracle, require=require,
+                    min_nontrivial=min_nontrivial, exhaustive_note=exhaustive_note,
+                    shards=shards, quick_shards=quick_shards)
+        cl.thorough_only = thorough_only  # the enumeration is empty in the quick tier (too expensive there)
+        registry.append(cl)
         return fn
     return deco
 
